@@ -210,6 +210,13 @@ def check_case(ctx, case, witness=False):
     if not re.fullmatch(rx, url, re.S) and not re.fullmatch(re.escape('/') + rx, url, re.S):
         raise CheckFailure(f'Route({text!r}).url(*{anon!r}, **{named!r}) = {url!r}: the literal parts {[s[1] for s in ast if s[0] == "lit"]} do not appear verbatim and in order')
     ep2, err2 = router.resolve(url, ['GET'])
+    if case.get('siblings') and (ep2 is None or ep2[0].route is not route):
+        # the built URL may be claimed by a more specific SIBLING rule of this router (e.g. '012' re-spelled '12' meets a literal '/12...'): the property
+        # speaks of the rule itself, so the re-match is judged on a router that holds this rule alone
+        alone = RadiRouter()
+        alone.add(text, 'GET', lambda **kw: kw)
+        ep2, err2 = alone.resolve(url, ['GET'])
+        ctx.count('built_url_claimed_by_a_sibling_rule')
     if ep2 is None:
         raise CheckFailure(f'Route({text!r}).url(*{anon!r}, **{named!r}) = {url!r} is not matched by the rule (built from the match of {path!r})')
     if ep2[1] != named or any(type(ep2[1][k]) is not type(named[k]) for k in named):
